@@ -69,6 +69,7 @@ PROPS = {
         tests=[
             dict(name="TestWaitShutdown", quick=4000, thorough=240000, shards_thorough=12),
             dict(name="TestCancelDuringDispatch", quick=1500, thorough=120000, shards_thorough=4),
+            dict(name="TestPanicWorkCovered", quick=2000, thorough=100000, shards_thorough=4),
             dict(name="TestExactlyOnce", quick=1500, thorough=60000, shards_thorough=6, shrinktime="5s"),
             dict(name="TestCancelWhileRunning", quick=6000, thorough=200000, shards_thorough=6),
             dict(name="TestWaitTrickle", quick=60, thorough=3000, shards_thorough=8, shrinktime="5s"),
